@@ -82,6 +82,12 @@ Resync(r) ==
 
 LocOf(a) == IF a.k = "c" THEN <<"c", a.o>> ELSE <<"f", a.o, a.f>>
 WLocOf(a) == IF a.k = "c" THEN <<"c", a.o>> ELSE <<"f", a.o>>
+SnOf(r, t) == {o \in Obj : CountOf(r.own[t].sn, o) > 0}
+WsOf(r, t) == {o \in Obj : CountOf(r.own[t].ws, o) > 0}
+\* (the model's snapshot sets only grow inside a critical section; the harness may overwrite a slot, so the
+\*  recorded set is a subset)
+LoadDone(t, r) == \/ r.ret.op = "load" /\ ((Load(t) /\ SnOf(r, t) \subseteq sn'[t]) \/ (SnOf(r, t) \subseteq sn[t] /\ UNCHANGED vars))
+                  \/ r.ret.op = "wload" /\ ((WLoad(t) /\ WsOf(r, t) \subseteq ws'[t]) \/ (WsOf(r, t) \subseteq ws[t] /\ UNCHANGED vars))
 Api(t, r) ==
   LET n == r.opn  a == r.args IN
   CASE n = "drop" -> Drop(t) /\ reg'[t].o = a.tgt /\ ~reg'[t].g
@@ -94,8 +100,9 @@ Api(t, r) ==
     [] n = "wsupgrade" -> WSUpgrade(t) /\ reg'[t].o = a.tgt
     [] n = "snap" -> Snap(t) \/ (UNCHANGED vars)            \* a second snapshot of the same object changes nothing
     [] n \in {"wsnap", "snapdown"} -> WSnap(t) \/ (UNCHANGED vars)
-    [] n = "load" -> Load(t) \/ (UNCHANGED vars)            \* loading null / an object already held
-    [] n = "wload" -> WLoad(t) \/ (UNCHANGED vars)
+    \* a load has a hook site before its read: the ghost effect belongs to the line on which the call returns
+    [] n = "load" -> IF "ret" \in DOMAIN r THEN LoadDone(t, r) ELSE UNCHANGED vars
+    [] n = "wload" -> IF "ret" \in DOMAIN r THEN LoadDone(t, r) ELSE UNCHANGED vars
     [] n = "store" -> LinkOpAt(t, "store", "st_swap", LocOf(a.loc), a.des.o, a.des.tag, NULL, 0)
     [] n = "swap" -> LinkOpAt(t, "swap", "sw_swap", LocOf(a.loc), a.des.o, a.des.tag, NULL, 0)
     [] n \in {"cas", "cas_weak"} -> LinkOpAt(t, "cas", "cas_try", LocOf(a.loc), a.des.o, a.des.tag, a.exp.o, a.exp.tag)
@@ -121,7 +128,8 @@ Consume(r) ==
   IF Skip(r) THEN Resync(r)
   ELSE CASE r.k = "adv" -> IF r.what = "ok" THEN Advance ELSE UNCHANGED vars
          [] r.k = "start" -> Api(r.t, r)
-         [] r.k = "step" -> Atomic(r.t) \/ UNCHANGED vars
+         [] r.k = "step" -> IF "ret" \in DOMAIN r /\ r.ret.op \in {"load", "wload"} THEN LoadDone(r.t, r)
+                            ELSE Atomic(r.t) \/ UNCHANGED vars
          [] OTHER -> FALSE
 
 SInit == l = 1 /\ Obs(Rec[1]) /\ TLCSet(1, 1) /\ TLCSet(2, <<>>)
